@@ -218,6 +218,7 @@ func c08Directed() []Directed {
 func init() {
 	Register(&Engine{
 		ID:       "C08",
+		Anchors:  []string{"router.go:headResponse.Write", "router.go:headResponse.WriteHeader", "tree.go:Remove", "method.go:addMethods"},
 		Cases:    func(t string) int { return map[string]int{"quick": 400, "thorough": 40000}[t] },
 		Run:      runC08,
 		Directed: c08Directed,
